@@ -75,7 +75,7 @@ def keyed_outputs(prog):
     unpacked = set()
     dagvars = {}
     for st in prog["stmts"]:
-        if st["op"] == "call" and prog["fns"][st["fn"]]["unpack_to"]:
+        if st["op"] == "call" and (prog["fns"][st["fn"]]["unpack_to"] or st.get("call_unpack")):
             unpacked.update(st["t"])
         if st["op"] == "dag":
             for t in st["t"]:
@@ -170,7 +170,8 @@ def mkplain(prog):
 def gen_cfg(rng):
     return dict(
         mc=rng.randint(1, 4), is_async=rng.random() < 0.35, attrs_via=rng.choice(["decorator", "decorator", "dict", "yaml", "json"]),
-        mc_via=rng.choice(["decorator", "config"]), controlled=rng.random() < 0.6,
+        mc_via=rng.choice(["decorator", "config"]), controlled=rng.random() < 0.6, profile=rng.random() < 0.2,
+        via_executor=rng.random() < 0.2,
     )
 
 
@@ -183,21 +184,28 @@ def gen_args(rng, prog, nonce):
 def run_twz(d, args, cfg):
     from tawazi import AsyncDAG
 
+    from tawazi.config import cfg as tcfg
+
     B.reset_log()
     probes.reset_counts()
     B.Settings.controlled = bool(cfg.get("controlled"))
     B.Settings.step_limit = 10 * len(d.exec_nodes) + 20
+    old_prof = tcfg.TAWAZI_PROFILE_ALL_NODES
+    tcfg.TAWAZI_PROFILE_ALL_NODES = bool(cfg.get("profile"))
     try:
+        # a whole-DAG executor (dag.executor() / DAGExecution(dag)) must behave like the plain call
+        f = d.executor() if cfg.get("via_executor") else d
         if isinstance(d, AsyncDAG):
             async def main():
-                return await d(*args)
+                return await f(*args)
 
             res = probes.run_op("await", lambda: asyncio.run(main()))
         else:
-            res = probes.run_op("call", lambda: d(*args))
+            res = probes.run_op("call", lambda: f(*args))
     finally:
         B.Settings.controlled = False
         B.Settings.step_limit = 0
+        tcfg.TAWAZI_PROFILE_ALL_NODES = old_prof
     return res, B.snapshot()
 
 
@@ -301,6 +309,7 @@ def one_program(col, pid, rng, feats, depth, pidx, reps=3, clauses=True, flavour
         probes.State.ref_counts = rcounts
         col.evaluations += 1
         rp2 = dict(rp, args=jsonable(args), rep=rep)
+        col.generic(log, rp2)
         bad = compare(col, pid, prog, cfg, args, sites, ref, res, log, rp2, clauses, only=only)
         if ref[0] == "ok" and nsites >= 2:
             order = tuple((e["kind"][1], e["node"]) for e in log if e["kind"] in ("FENTER", "FEXIT"))
